@@ -329,7 +329,7 @@ def part_b(chk, pid, thorough, rnd, epoch, days):
             raise core.Machinery('mcB_latefire: the guided instance never fires later than the window after a moment')
         chk.states -= wit.distinct
         chk.transitions -= wit.generated
-    return replay_b(chk, pid, rnd, epoch, days, None if thorough else 1000, 3 if thorough else 2, nlate=150)
+    return replay_b(chk, pid, rnd, epoch, days, None if thorough else 1000, 3 if thorough else 2, nlate=100)
 
 
 def replay_b(chk, pid, rnd, epoch, days, nsample, maxenv=2, nlate=0):
@@ -528,11 +528,15 @@ def run(pid, tier, seed, replay=None):
         'reactor callbacks atomic; workers/database are environment stubs; executing = task messages decoded from the worker transports',
         'a node that is queued (with work) or executing when a moment passes is exempt from firing for that moment; a firing up to 300 s before a moment is the firing for it; '
         'an event fires at most once per occurrence (two firings are not both within [m - 300 s, end of the day of m])',
+        'late passes: 4 guided configurations (weekly task, boot+weekly analysis, monthly task, dated analysis) start 480 s before their moment with one more environment step; '
+        'there a wake-up may run 600 s late (same day: a wake-up delayed across midnight is outside the bound) and the operator may hold the pipeline (passes only poll every 10 s) '
+        'while the clock moves 900 s; a moment that passes while the pipeline is held is exempt from Recurs at that instant and owed to the first acting pass of the same day (CatchUp); '
+        'Armed is not demanded of a held pipeline',
     ]
     return chk.finish(
         '(a) every specification of the domain x clock instants (all 4384 in thorough; first and last two days of every month + 24 seeded days in quick) + seeded random instants: '
         'the real _delay under the injected clock, each record judged by TLC; non-trivial = records whose delay is not 0. '
-        '(b) every transition of the bounded firing model (quick: the pipeline start of every configuration + 1000 seeded longer schedules) as the input schedule reaching it, executed on the real schedule/farm code with a drain; '
+        '(b) every transition of the bounded firing model (quick: the pipeline start of every configuration + 1000 seeded longer schedules + the 100 longest guided late-pass schedules) as the input schedule reaching it, executed on the real schedule/farm code with a drain; '
         'non-trivial = schedules with at least one firing and one completion.'
     )
 
